@@ -109,6 +109,10 @@ def check(case, rec):
     else:
         phys = fs
     ex = expected_content(fs)
+    if case.get('src_version') is not None:
+        # the version number in the source's lead-ins (the reader accepts unknown numbers with a warning)
+        phys = {'segments': [dict(sg, version=case['src_version']) for sg in phys['segments']]}
+        rec.label('source_version=%d' % case['src_version'])
     data, _i, _l = encode_file(phys)
     rec.nontrivial(_nontrivial(fs, ex))
     rec.label(*S.spec_classes(phys))
@@ -136,8 +140,20 @@ def check(case, rec):
             istream = io.BytesIO() if case['index'] else None
             index = istream if istream is not None else False
         source = src if (case['src'] == 'path' or case['dst'] == 'same_path') else io.BytesIO(data)
-        ok, _r = rec.guard('defragment', lambda: TdmsWriter.defragment(source, dst, version=case['version'],
-                                                                       index_file=index))
+        if case.get('pathlib') and isinstance(dst, str) and not index:
+            import pathlib
+            dst_arg = pathlib.Path(dst)            # a path object as destination (no index file requested)
+            rec.label('destination=pathlib.Path')
+        else:
+            dst_arg = dst
+        if case.get('default_version'):
+            # version argument left out: the documented default is 4712
+            case = dict(case, version=4712)
+            rec.label('version_argument_omitted')
+            ok, _r = rec.guard('defragment', lambda: TdmsWriter.defragment(source, dst_arg, index_file=index))
+        else:
+            ok, _r = rec.guard('defragment', lambda: TdmsWriter.defragment(source, dst_arg, version=case['version'],
+                                                                           index_file=index))
         if not ok:
             return
         if case['dst'] in ('path', 'same_path'):
@@ -255,7 +271,9 @@ def _wrap(fs_strategy, with_picks=False):
             fs, picks = draw(fs_strategy), None
         return {'fs': fs, 'picks': picks, 'dst': draw(st.sampled_from(['path', 'stream', 'same_path'])),
                 'src': draw(st.sampled_from(['path', 'stream'])), 'index': draw(st.booleans()),
-                'version': draw(st.sampled_from([4712, 4713]))}
+                'version': draw(st.sampled_from([4712, 4713])),
+                'src_version': draw(st.sampled_from([None, None, 4712, 4713, 4714, 0, 4711])),
+                'default_version': draw(st.integers(0, 3)) == 0, 'pathlib': draw(st.integers(0, 2)) == 0}
     return cases()
 
 
